@@ -188,8 +188,80 @@ def register(reg, S):
                  ("time-is-TS", f"{ev}.timestamp == TS({be}, {tick0})"),
                  ("index-is-gov", f"{ev}._proximal_bpm_event_index == gov({be}, {tick0}) and result[1] == gov({be}, {tick0}) and result[1] >= 0"),
                  ("cursor-nonneg", "result[2] >= 0"),
-                 ] + note_post + sus_post + end_post + hopo_post + sp_post,
+                 ] + note_post + sus_post + end_post + hopo_post + sp_post + [
+                 # the name of this whole postcondition, used opaquely by the grouping loop
+                 ("def:NEPOST", "opaque('NEPOST', datas, prev_event, star_power_events, bpm_events, star_power_event_index, result[0], result[2])")],
         props=["C01", "C02", "C03", "C04", "C05", "C11", "C12"]))
+
+    # ------------------------------------------------------------------ grouping note data by tick
+    ne_c = reg.by_name(I + "NoteEvent.from_parsed_data")
+    spe_end = lambda j: f"star_power_events[{j}].tick + star_power_events[{j}].sustain"
+
+    def per_event(evs, k="k", reveal=False):
+        """from_parsed_data's postcondition for event k built from datas[g_lo[k]:g_hi[k]]."""
+        m = {"datas": f"slice(datas, g_lo[{k}], g_hi[{k}])",
+             "prev_event": f"(None if {k} == 0 else {evs}[{k} - 1])",
+             "star_power_event_index": f"(0 if {k} == 0 else g_c[{k} - 1])",
+             "result[0]": f"{evs}[{k}]", "result[1]": f"{evs}[{k}]._proximal_bpm_event_index",
+             "result[2]": f"g_c[{k}]"}
+        if reveal:
+            return " and ".join("(" + subst(t, m) + ")" for n, t in ne_c.ensures if not n.startswith("def:"))
+        t = dict(ne_c.ensures)["def:NEPOST"]
+        # the facts about event k that the loop itself needs, plus the opaque postcondition
+        return (f"{evs}[{k}].tick == datas[g_lo[{k}]].tick and {evs}[{k}]._proximal_bpm_event_index >= 0 and g_c[{k}] >= 0 "
+                f"and {evs}[{k}]._proximal_bpm_event_index == gov({be}, {evs}[{k}].tick) "
+                f"and implies(len(star_power_events) > 0, g_c[{k}] < len(star_power_events)) and " + subst(t, m))
+
+    def structure(evs, upto):
+        n = f"len({evs})"
+        return [
+            ("ghost-lengths", f"len(g_lo) == {n} and len(g_hi) == {n} and len(g_c) == {n}"),
+            ("runs-cover-prefix", f"implies({n} == 0, {upto} == 0) and implies({n} > 0, g_lo[0] == 0 and g_hi[{n} - 1] == {upto})"),
+            ("runs-nonempty-adjacent", f"forall(0, {n}, lambda k: 0 <= g_lo[k] and g_lo[k] < g_hi[k] and g_hi[k] <= len(datas) and implies(k + 1 < {n}, g_hi[k] == g_lo[k + 1]))"),
+            ("run-has-event-tick", f"forall(0, {n}, lambda k: forall(g_lo[k], g_hi[k], lambda j: datas[j].tick == {evs}[k].tick))"),
+            ("ticks-strictly-increase", f"forall(0, {n} - 1, lambda k: {evs}[k].tick < {evs}[k + 1].tick)"),
+            ("each-event", f"forall(0, {n}, lambda k: {per_event(evs)})"),
+            ("phrases-before-cursor-ended", f"forall(0, {n}, lambda k: forall(0, g_c[k], lambda j: {spe_end('j')} <= {evs}[k].tick))"),
+        ]
+    build_pre = [
+        ("sorted-by-tick", "forall(0, len(datas), lambda i: forall(i + 1, len(datas), lambda j: datas[i].tick <= datas[j].tick))"),
+        ("one-datum-per-index-per-tick", f"forall(0, len(datas), lambda i: forall(i + 1, len(datas), lambda j: implies(datas[i].tick == datas[j].tick, {idx('i')} != {idx('j')})))"),
+        ("open-comes-first-in-its-tick", f"forall(1, len(datas), lambda k: implies(datas[k].tick == datas[k - 1].tick, {idx('k')} != 7))"),
+        ("lengths-nonneg-bounded", f"forall(0, len(datas), lambda k: 0 <= datas[k].sustain <= {BIG} and -{BIG} <= datas[k].tick <= {BIG})"),
+        ("wf-sorted", f"sorted_ticks({be})"),
+        ("nonempty-first0", f"len({be}.events) >= 1 and {be}.events[0].tick == 0"),
+        ("res-range", f"1 <= {be}.resolution <= 2**50"),
+        ("envelope", f"ENV({be})"),
+    ]
+    first_forced = f"exists(0, len(datas), lambda k: datas[k].tick == datas[0].tick and {idx('k')} == 5)"
+    reg.add(Contract(
+        I + "InstrumentTrack._build_note_events_from_data",
+        params=dict(cls=_cls(I + "InstrumentTrack"), datas=SeqS(S["NoteData"]), star_power_events=SeqS(SPE), bpm_events=S["BPMEvents"]),
+        result=SeqS(NE),
+        ghost_results=dict(g_lo=SeqS(INT), g_hi=SeqS(INT), g_c=SeqS(INT)),
+        requires=build_pre,
+        raise_allowed={"ValueError": f"exists(0, len(datas), lambda k: datas[k].tick < 0) or {zero_tempo} or ({first_forced})"},
+        must_raise=["exists(0, len(datas), lambda k: datas[k].tick < 0)", first_forced],
+        ensures=structure("result", "len(datas)"),
+        ghost_init="g_lo = empty_ints()\ng_hi = empty_ints()\ng_c = empty_ints()",
+        ghosts=[Ghost("events.append(event)", "g_lo = append(g_lo, left)\ng_hi = append(g_hi, right)\ng_c = append(g_c, star_power_event_index)")],
+        loops={
+            0: LoopSpec(invariants=[
+                ("index-range", "0 <= i and i <= num_datas and num_datas == len(datas)"),
+            ] + structure("events", "i") + [
+                ("next-run-is-later", "implies(len(events) > 0 and i < num_datas, events[len(events) - 1].tick < datas[i].tick)"),
+                ("cursors-threaded", "proximal_bpm_event_index == (0 if len(events) == 0 else events[len(events) - 1]._proximal_bpm_event_index) and proximal_bpm_event_index >= 0 "
+                                     "and star_power_event_index == (0 if len(events) == 0 else g_c[len(events) - 1]) and star_power_event_index >= 0"),
+                ("no-negative-tick-so-far", "forall(0, i, lambda k: datas[k].tick >= 0)"),
+                ("first-not-forced", f"implies(len(events) > 0, not exists(0, g_hi[0], lambda k: {idx('k')} == 5))"),
+            ], decreases="num_datas - i"),
+            1: LoopSpec(invariants=[
+                ("run-range", "left <= i and i < num_datas"),
+                ("run-same-tick", "forall(left, i + 1, lambda j: datas[j].tick == datas[left].tick)"),
+            ], decreases="num_datas - i"),
+        },
+        locals={"events": SeqS(NE)},
+        props=["C02", "C03", "C04", "C05", "C11"]))
 
     # ------------------------------------------------------------------ last note end
     reg.add(Contract(
